@@ -229,6 +229,10 @@ func c14Responder(req *http.Request, body []byte) *memnet.Response {
 	raw := fmt.Sprintf("HTTP/1.1 200 OK\r\nContent-Length: %d\r\nX-Resp-Len: %d\r\nX-Target: %s\r\n\r\n%s", n, n, "buf", rb)
 	r.Raw = []byte(raw)
 	hl := len(raw) - n
+	if req.Method == "HEAD" {
+		r.Raw = []byte(raw[:hl]) // the entity's headers, no body
+		return r
+	}
 	switch pat {
 	case "bytes":
 		for i := 1; i < n; i++ {
@@ -358,6 +362,25 @@ func c14EarlyAnswerBig(w *World) []Violation {
 		for _, x := range f {
 			os.Remove(w.Dir + "/tmp/" + x)
 		}
+	}
+	return vs
+}
+
+// c14Head: a HEAD response declares the entity's length but has no body: nothing is buffered, so no limit can be
+// exceeded; status and headers pass through whatever the declared length is.
+func c14Head(w *World) []Violation {
+	var vs []Violation
+	for si, s := range c14Services {
+		for _, n := range []int{0, 3, 9, 20, 100000} {
+			w.reqSeq++
+			o := w.Do(ReqSpec{ID: fmt.Sprintf("c14head-%d", w.reqSeq), Method: "HEAD", Host: s.host(si), Path: "/x", Header: [][2]string{{"X-Resp", fmt.Sprintf("len=%d;pat=one;kind=plain", n)}}})
+			if o.Status != 200 || len(o.Body) != 0 || o.Header.Get("X-Resp-Len") != fmt.Sprint(n) || o.Header.Get("Content-Length") != fmt.Sprint(n) {
+				vs = append(vs, Violation{"C14", "head-response-altered", fmt.Sprintf("svc=%d (respbuf=%v Lresp=%d) HEAD for an entity of %d bytes: %s, Content-Length %q, X-Resp-Len %q, body %d bytes", si, s.respBuf, s.Lresp, n, o.Summary(), o.Header.Get("Content-Length"), o.Header.Get("X-Resp-Len"), len(o.Body))})
+			}
+		}
+	}
+	if f := spillFiles(w); len(f) > 0 {
+		vs = append(vs, Violation{"C14", "spill-file-left-behind kind=head", fmt.Sprint(f)})
 	}
 	return vs
 }
@@ -630,6 +653,7 @@ func c14Cases(tier string) []ECase {
 			}
 		}
 	}
+	cases = append(cases, ECase{Name: "L2 HEAD requests for entities on both sides of the response limit", Class: "L2 head", Run: c14Head})
 	cases = append(cases, ECase{Name: "L2 200kB body in memory, target answers early, then two more requests", Class: "L2 early-answer big", Run: c14EarlyAnswerBig})
 	// stable order
 	return cases
